@@ -832,9 +832,65 @@ fn gen_mtu_small(seed: u64, tier: &Tier, shard: usize, nshards: usize, emit: &mu
     }
 }
 
+/// Whole replies whose size estimate is exact: the node's own digest is inflated with a few members
+/// with very long ids until 100..200 bytes are left for the delta, and the only stale member has
+/// high-entropy id, generation, versions, key and value, so that the single small zstd block is not
+/// compressible and the serializer's upper bound is the real length. The value length is swept over
+/// the whole room: one of the lengths lands exactly on the budget (a reply of exactly 65,507 bytes),
+/// so a budget that is off by a single byte shows as an oversize reply.
+fn gen_mtu_exactfit(seed: u64, tier: &Tier, shard: usize, nshards: usize, emit: &mut dyn FnMut(String)) {
+    let ncases = if tier.thorough { 48 } else { 8 };
+    for i in 0..ncases {
+        if i % nshards != shard {
+            continue;
+        }
+        let mut rng = Rng::new(seed ^ ((i as u64) << 18) ^ 0xE8AC7);
+        emit(format!("(case mtu-x{i})"));
+        let me = node_id(1);
+        emit(new_cmd(0, &me, "c", 100, DEFAULT_FD, "(pred none)", &[]));
+        let entry_len = |id: &ChitchatId| 2 + id.node_id.len() + 8 + if id.gossip_advertise_addr.is_ipv4() { 7 } else { 19 } + 24;
+        let big = |rng: &mut Rng| (1u64 << 56) + (rng.next() >> 8);
+        let x = ChitchatId::new(rand_string(&mut rng, rng_len(i), 2), big(&mut rng), SocketAddr::from(([rng.range(11, 250) as u8, rng.range(1, 250) as u8, rng.range(1, 250) as u8, rng.range(1, 250) as u8], rng.range(1025, 65000) as u16)));
+        let room = rng.range(100, 200) as usize;
+        let target = 65_503usize - room;
+        let mut dlen: usize = 2 + entry_len(&me) + entry_len(&x);
+        let mut e = 0u32;
+        while dlen + 1100 <= target {
+            let id = ChitchatId::new(format!("t{e:03}{}", "f".repeat(996)), 0, SocketAddr::from(([10, 9, 0, e as u8], 1)));
+            dlen += entry_len(&id);
+            emit(plist("setcopyq", ["0".to_string(), p_id(&id), "(ns 1 0 0 ())".to_string()]));
+            e += 1;
+        }
+        if target >= dlen + 41 {
+            let l = target - dlen - 41;
+            let id = ChitchatId::new("g".repeat(l), 1, SocketAddr::from(([10, 8, 0, 1], 1)));
+            dlen += entry_len(&id);
+            emit(plist("setcopyq", ["0".to_string(), p_id(&id), "(ns 1 0 0 ())".to_string()]));
+        }
+        let _ = dlen;
+        let gc = big(&mut rng);
+        let from = gc + 1 + (rng.next() >> 10);
+        let v1 = from + 1 + (rng.next() >> 10);
+        let klen = rng.range(1, 9) as usize;
+        let key = rand_string(&mut rng, klen, 2);
+        let syn = PMsg::Syn { cluster_id: "c".to_string(), digest: vec![VNodeDigest { chitchat_id: x.clone(), heartbeat: big(&mut rng), last_gc_version: gc, max_version: from }] };
+        for l in 0..=room {
+            let value = rand_string(&mut rng, l, 2);
+            let copy = PCopy { heartbeat: big(&mut rng), last_gc: gc, max_version: v1, kvs: vec![(key.clone(), value, v1, 0, 0)] };
+            emit(plist("setcopyq", ["0".to_string(), p_id(&x), p_pcopy(&copy)]));
+            emit(plist("msglite", ["0".to_string(), p_msg(&syn)]));
+        }
+    }
+}
+
+fn rng_len(i: usize) -> usize {
+    3 + i % 7
+}
+
 pub fn gen_mtu(seed: u64, tier: &Tier, shard: usize, nshards: usize, emit: &mut dyn FnMut(String)) {
     gen_mtu_boundary(seed, tier, shard, nshards, emit);
     gen_mtu_small(seed, tier, shard, nshards, emit);
+    gen_mtu_exactfit(seed, tier, shard, nshards, emit);
     let ncases = if tier.thorough { 640 } else { 64 };
     for i in 0..ncases {
         if i % nshards != shard {
@@ -1061,7 +1117,14 @@ pub fn gen_cluster(seed: u64, tier: &Tier, shard: usize, nshards: usize, emit: &
         };
         let twins = rng.chance(1, 5);
         for k in 0..n {
-            let cluster = if two_clusters && k % 2 == 1 { ["c2", "", "C", "c ", " c", "cc"][rng.below(6) as usize] } else { "c" };
+            // other cluster ids: near misses of "c" (case, padding, prefix, empty) and ids that agree with
+            // it on every shared byte and whose length differs by 256 or 512 (comparisons through a
+            // narrowed length or a fixed-size buffer)
+            let long256 = format!("c{}", "x".repeat(256));
+            let long512 = format!("c{}", "c".repeat(512));
+            let long255 = "c".repeat(256);
+            let others: [&str; 9] = ["c2", "", "C", "c ", " c", "cc", &long256, &long512, &long255];
+            let cluster = if two_clusters && k % 2 == 1 { others[rng.below(9) as usize] } else { "c" };
             // "twins": another member with the node id of node 0 — a restart under a new generation,
             // or the same node id and generation advertised at another address
             let mut id = node_id(k as u16 + 1);
